@@ -679,6 +679,35 @@ func (te *TEnv) call(x *ECall) TV {
 			h := vc.heapGet(te.st, vk, vs)
 			return TV{t: "(select (select " + h + " " + m.t + ") " + k.t + ")", sort: reg.sortOf(mt.Elem()), gt: mt.Elem()}
 		}
+	case "fieldframe":
+		// fieldframe("pkg.Type", "field", p...): every object other than the listed ones keeps its field value
+		if len(x.Args) >= 2 {
+			ts, ok1 := x.Args[0].(*EStr)
+			fs, ok2 := x.Args[1].(*EStr)
+			if !ok1 || !ok2 {
+				return te.fail("fieldframe needs type and field strings")
+			}
+			t := te.resolveType(ts.V)
+			si := reg.structInfoOf(t)
+			if si == nil {
+				return te.fail("fieldframe: unknown struct type %q", ts.V)
+			}
+			for i, f := range si.fields {
+				if f.name != fs.V {
+					continue
+				}
+				key := heapKeyField(si, i)
+				hs := "(Array Int " + f.sort + ")"
+				now := vc.heapGet(te.st, key, hs)
+				was := vc.heapGet(te.old, key, hs)
+				conds := []string{"(> r!ff 0)", "(<= r!ff " + te.old.alloc + ")"}
+				for k := 2; k < len(x.Args); k++ {
+					conds = append(conds, "(not (= r!ff "+arg(k).t+"))")
+				}
+				return TV{t: "(forall ((r!ff Int)) (! (=> (and " + strings.Join(conds, " ") + ") (= (select " + now + " r!ff) (select " + was + " r!ff))) :pattern ((select " + now + " r!ff))))", sort: sortBool}
+			}
+			return te.fail("fieldframe: no field %s in %s", fs.V, ts.V)
+		}
 	case "toarray32":
 		// toarray32(s): the [32]byte value a conversion of slice s yields
 		if need(1) {
